@@ -46,6 +46,20 @@ BENIGN = {
                                      "            auto payload = GetCaptureModulePayload(data, size);\n            if (payload == nullptr)\n                break;\n            if (payload->getMessageType() == CmpHeader::MessageType::cmStatus)\n                payloads.push_back(payload);")],
  "capture-module-end-member-fn": [("src/capture_module_payload.cpp", "    const uint8_t* end = payloadData.data() + payloadData.size();\n    str = std::string_view{};", "    const uint8_t* const end = payloadData.data() + payloadData.size();\n    str = {};")],
  "packet-swap-std": [("src/packet.cpp", "    using std::swap;\n    swap(lhs.version, rhs.version);", "    std::swap(lhs.version, rhs.version);\n    using std::swap;")],
+ "tecmp-getheader-early-size": [("src/tecmp_decoder.cpp", "    if (size < sizeof(CmpHeader))\n        return {};\n\n    memcpy(&header, data, sizeof(CmpHeader));", "    if (data == nullptr || size < sizeof(CmpHeader))\n        return {};\n\n    std::memcpy(&header, data, sizeof(CmpHeader));")],
+ "tecmp-can-ctor-two-ifs": [("src/tecmp_can_payload.cpp", "    if (size < sizeof(Header) || size - sizeof(Header) < getHeader()->getDlc())\n        setType(TECMP::PayloadType::invalid);", "    if (size < sizeof(Header))\n        setType(TECMP::PayloadType::invalid);\n    else if (size - sizeof(Header) < getHeader()->getDlc())\n        setType(TECMP::PayloadType::invalid);")],
+ "interface-reader-if-form": [("src/interface_payload.cpp", "    return static_cast<size_t>(end - ptr) - sizeof(uint16_t) >= length ? length : 0;", "    if (static_cast<size_t>(end - ptr) - sizeof(uint16_t) < length)\n        return 0;\n    return length;")],
+ "lin-validator-sum": [("src/lin_payload.cpp", "header->getDataLength() <= size - sizeof(Header));", "sizeof(Header) + header->getDataLength() <= size);")],
+ "packet-create-if-chain-prefix": [("src/packet.cpp", "    switch (type.getType())\n    {\n        case PayloadType::can:", "    const auto payloadType = type.getType();\n    switch (payloadType)\n    {\n        case PayloadType::can:")],
+ "encoder-bytes-to-add-size_t": [("src/encoder.cpp", "        uint16_t bytesToAdd = static_cast<uint16_t>(\n            std::min(static_cast<size_t>(bytesLeft - sizeof(MessageHeader)), packet.getPayloadLength() - currentPayloadPos));", "        const size_t room = bytesLeft - sizeof(MessageHeader);\n        const size_t rest = packet.getPayloadLength() - currentPayloadPos;\n        uint16_t bytesToAdd = static_cast<uint16_t>(std::min(room, rest));")],
+ "status-update-else-if-reorder": [("src/device_status.cpp", "    if (packet.getPayload().getType() == PayloadType::ifStatMsg)\n        updateInterfaces(packet);\n\n    if (packet.getPayload().getType() == PayloadType::cmStatMsg)\n        devicePacket = packet;", "    const auto kind = packet.getPayload().getType();\n    if (kind == PayloadType::cmStatMsg)\n        devicePacket = packet;\n    else if (kind == PayloadType::ifStatMsg)\n        updateInterfaces(packet);")],
+ "decoder-version-local": [("src/decoder.cpp", "    const auto streamId = header->getStreamId();", "    const auto streamId = header->getStreamId();\n    const auto version = header->getVersion();"), ("src/decoder.cpp", "            packet->setVersion(header->getVersion());", "            packet->setVersion(version);")],
+ "cmpheader-getter-static-cast": [("src/cmp_header.cpp", "    return swapEndian(deviceId);", "    return static_cast<uint16_t>(swapEndian(deviceId));")],
+ "can-setid-one-expression": [("src/can_payload_base.cpp", "    id &= ~idMask;\n    id |= swapEndian(newId);", "    id = (id & ~idMask) | swapEndian(newId);")],
+ "lin-setparity-mask": [("src/lin_payload.cpp", "    pid |= parity << parityShift;", "    pid |= static_cast<uint8_t>((parity << parityShift) & parityMask);")],
+ "payload-eq-memcmp": [("src/payload.cpp", "    for (size_t i = 0; i < lhs.getLength(); ++i)\n        if (lhsRaw[i] != rhsRaw[i])\n            return false;\n\n    return true;", "    return lhs.getLength() == 0 || memcmp(lhsRaw, rhsRaw, lhs.getLength()) == 0;")],
+ "packet-assign-copy-and-swap-by-value": [("src/packet.cpp", "    if (this != &other)\n    {\n        Packet tmp(other);\n        swap(*this, tmp);\n    }\n    return *this;", "    Packet tmp(other);\n    swap(*this, tmp);\n    return *this;")],
+ "decode-remaining-size_t": [("src/decoder.cpp", "        if (!isSegmentedPacket(packetPtr, curSize))\n        {", "        const bool segmented = isSegmentedPacket(packetPtr, curSize);\n        if (!segmented)\n        {")],
  "dlc-table-if-chain": [("src/can_payload_base.cpp", "        case 12:\n            return 9;\n            break;", "        case 12:\n            return 9;")],
 }
 
@@ -75,7 +89,36 @@ def apply(d, edits):
     return None
 
 
+SAVE_FOR = {"key-in-local": ["C05", "C17", "C18"], "payload-ctor-copy_n": ["C02"], "validator-early-returns": ["C04", "C03"], "trim-ternary": ["C07", "C20"],
+            "emplace-back-frame": ["C08", "C09"], "lookup-by-loop": ["C16"], "status-erase-instead-of-swap-pop": ["C16"],
+            "encoder-counter-separate-increment": ["C09"], "addsegment-size-var": ["C02"], "isvalidpacket-early-returns": ["C03", "C02"],
+            "decode-for-loop": ["C02", "C17"], "tecmp-handle-early-null-return": ["C02"]}
+
+
+def save_cases():
+    import subprocess
+    for name, props in SAVE_FOR.items():
+        d = selftest.make_scratch("/repo")
+        o = selftest.make_scratch("/repo")
+        try:
+            if apply(d, BENIGN[name]):
+                continue
+            diff = subprocess.run(["git", "diff", "--no-index", "--no-prefix", o, d], stdout=subprocess.PIPE).stdout
+            diff = diff.replace(o.encode()[1:] + b"/", b"a/").replace(d.encode()[1:] + b"/", b"b/")
+            for p in props:
+                os.makedirs(os.path.join(selftest.ST_DIR, p), exist_ok=True)
+                open(os.path.join(selftest.ST_DIR, p, "b-" + name + ".patch"), "wb").write(diff)
+                json.dump({"expect": "silent", "what": "behaviour-preserving refactor '%s' (tools/benign_sweep.py)" % name},
+                          open(os.path.join(selftest.ST_DIR, p, "b-" + name + ".json"), "w"), indent=1)
+        finally:
+            shutil.rmtree(d, ignore_errors=True)
+            shutil.rmtree(o, ignore_errors=True)
+    print("saved")
+
+
 def main():
+    if len(sys.argv) > 1 and sys.argv[1] == "--save":
+        return save_cases()
     flt = sys.argv[1] if len(sys.argv) > 1 else ""
     props = [c["property_id"] for c in json.load(open(os.path.join(HERE, "..", "MANIFEST.json")))["checks"]]
     bad = 0
